@@ -82,19 +82,24 @@ pub struct Handler {
     attempts: u8,
 }
 
+/// An empty set for the single handshake in progress per direction (10s timeout).
+///
+/// A full set refuses a new future (and cannot be emptied), so replacing the handshake in progress
+/// means starting over with an empty set.
+fn new_handshake_set<O: 'static>() -> futures_bounded::FuturesSet<O> {
+    futures_bounded::FuturesSet::new(
+        || futures_bounded::Delay::futures_timer(Duration::from_secs(10)),
+        1,
+    )
+}
+
 impl Handler {
     pub fn new(endpoint: ConnectedPoint, holepunch_candidates: Vec<Multiaddr>) -> Self {
         Self {
             endpoint,
             queued_events: Default::default(),
-            inbound_stream: futures_bounded::FuturesSet::new(
-                || futures_bounded::Delay::futures_timer(Duration::from_secs(10)),
-                1,
-            ),
-            outbound_stream: futures_bounded::FuturesSet::new(
-                || futures_bounded::Delay::futures_timer(Duration::from_secs(10)),
-                1,
-            ),
+            inbound_stream: new_handshake_set(),
+            outbound_stream: new_handshake_set(),
             holepunch_candidates,
             attempts: 0,
         }
@@ -108,18 +113,16 @@ impl Handler {
     ) {
         match output {
             future::Either::Left(stream) => {
-                if self
-                    .inbound_stream
-                    .try_push(inbound::handshake(
-                        stream,
-                        self.holepunch_candidates.clone(),
-                    ))
-                    .is_err()
-                {
+                if !self.inbound_stream.is_empty() {
                     tracing::warn!(
                         "New inbound connect stream while still upgrading previous one. Replacing previous with new.",
                     );
+                    self.inbound_stream = new_handshake_set();
                 }
+                let _ = self.inbound_stream.try_push(inbound::handshake(
+                    stream,
+                    self.holepunch_candidates.clone(),
+                ));
                 self.attempts += 1;
             }
             // A connection listener denies all incoming substreams, thus none can ever be fully
@@ -138,18 +141,16 @@ impl Handler {
             self.endpoint.is_listener(),
             "A connection dialer never initiates a connection upgrade."
         );
-        if self
-            .outbound_stream
-            .try_push(outbound::handshake(
-                stream,
-                self.holepunch_candidates.clone(),
-            ))
-            .is_err()
-        {
+        if !self.outbound_stream.is_empty() {
             tracing::warn!(
                 "New outbound connect stream while still upgrading previous one. Replacing previous with new.",
             );
+            self.outbound_stream = new_handshake_set();
         }
+        let _ = self.outbound_stream.try_push(outbound::handshake(
+            stream,
+            self.holepunch_candidates.clone(),
+        ));
     }
 
     fn on_listen_upgrade_error(
